@@ -60,3 +60,71 @@ for w in W:
     K("C03.K.de.take_" + w, "postcard/src/de/deserializer.rs::verif_dec", "verif_dec::dec_" + w, {"C03": "D", "C01": "S", "C04": "S"},
       fns=["postcard::de::deserializer::Deserializer::try_take_varint_" + w],
       note="every byte string of length <= ceil(bits/7)+2 over de::Slice: accept/reject, value, consumed, error kind == wire-format decoder")
+
+# ---------------------------------------------------------------- storage flavours (ser/flavors.rs)
+SF = "postcard/src/ser/flavors.rs::verif_serflavor"
+K("C05.K.slice.contract", SF, "verif_serflavor::slice_contract", {"C05": "D", "C01": "S", "C20": "S"},
+  fns=["postcard::ser::flavors::Slice::new", "postcard::ser::flavors::Slice::try_push", "postcard::ser::flavors::Slice::try_extend", "postcard::ser::flavors::Slice::finalize"],
+  note="Hoare triple over a symbolic window with guard bytes: Ok iff fits, BufferFull otherwise, finalize == written prefix, frame: every unwritten byte unchanged (loop-free, full domain)")
+K("C05.K.slice.index", SF, "verif_serflavor::slice_index", {"C05": "S", "C06": "S"},
+  fns=["postcard::ser::flavors::Slice::index", "postcard::ser::flavors::Slice::index_mut"],
+  note="Index/IndexMut address exactly byte idx of the buffer; frame")
+K("C05.K.hvec.contract", SF, "verif_serflavor::hvec_contract", {"C05": "D", "C20": "S"}, label="bounded(B=5, blocks<=4)",
+  fns=["postcard::ser::flavors::HVec::try_push", "postcard::ser::flavors::HVec::try_extend", "postcard::ser::flavors::HVec::finalize"],
+  note="HVec<5>: push/extend Err(BufferFull) iff it would exceed B, contents appended in order")
+K("C05.K.size.contract", SF, "verif_serflavor::size_contract", {"C05": "D"},
+  fns=["postcard::ser::flavors::Size::try_push", "postcard::ser::flavors::Size::try_extend", "postcard::ser::flavors::Size::finalize"],
+  note="Size counts exactly (any prior count), never fails")
+K("C20.K.flavor.default_extend", SF, "verif_serflavor::default_extend", {"C20": "D"}, label="bounded(block<=4)",
+  fns=["postcard::ser::flavors::Flavor::try_extend (default)"],
+  note="default try_extend == try_push per byte in order, stops at first error")
+
+# ---------------------------------------------------------------- C01 round trip through the public API
+PROBES = "postcard/src/lib.rs::verif_probes"
+C01M = "postcard/src/lib.rs::verif_c01"
+for k in ["bool", "i8", "u8", "i16", "u16", "i32", "u32", "i64", "u64", "i128", "u128", "usize", "isize", "char_1", "char_2", "char_3", "char_4", "unit", "option",
+          "unit_struct", "newtype_struct", "tuple_struct", "tuple", "enum", "struct", "array", "f32", "f64"]:
+    K("C01.K.kind." + k, C01M, "verif_c01::rt_" + k, {"C01": "D"}, needs=(REF, PROBES),
+      fns=["postcard::to_slice", "postcard::take_from_bytes", "postcard::from_bytes", "postcard::ser::serializer (impl ser::Serializer)", "postcard::de::deserializer (impl de::Deserializer)"],
+      note="take_from_bytes(to_slice(v) ++ tail) == Ok(v, tail) for EVERY value of the probe type (full domain)")
+K("C01.K.kind.borrowed", C01M, "verif_c01::rt_borrowed", {"C01": "D"}, needs=(REF, PROBES), label="bounded(str/bytes len<=3)",
+  note="struct with &str and &[u8] (serialize_bytes) fields round-trips; symbolic contents")
+K("C01.K.kind.seq", C01M, "verif_c01::rt_seq", {"C01": "D"}, needs=(REF, PROBES), label="bounded(elements<=2)",
+  note="heapless::Vec<u16,3> round-trips")
+for e in ["to_vec", "to_extend", "to_allocvec", "to_io", "decoders"]:
+    K("C01.K.entry." + e, C01M, "verif_c01::entry_" + e, {"C01": "D", "C11": "S"}, needs=(REF, PROBES),
+      fns=["postcard::to_slice", "postcard::to_vec", "postcard::to_allocvec", "postcard::to_extend", "postcard::to_io", "postcard::from_bytes", "postcard::take_from_bytes", "postcard::from_io"],
+      note="encode entry gives the same bytes as to_slice / the three decode entries agree, for every value of a probe type")
+
+# ---------------------------------------------------------------- accumulator (accumulator.rs), Route V
+ACCF = ["postcard::accumulator::CobsAccumulator::feed_ref"]
+for c, what in [("conserve", "returned remainder is a suffix of the chunk: consumed ++ remainder == chunk"),
+                ("frame_fits", "zero-terminated segment that fits: exactly the isolated decoding of view++segment, rest handed back, buffer reset"),
+                ("append_fits", "unterminated piece that fits (incl. empty chunk): Consumed, buffered completely")]:
+    V("C08.V.acc.feed_ref." + c, "acc", "CobsAccumulator::feed_ref", {"C08": "D"}, fns=ACCF, note=what)
+V("C08.V.acc.feed_ref.strongest", "acc", "CobsAccumulator::feed_ref", {"C08": "S", "C09": "S"}, fns=ACCF,
+  note="(outcome, remainder, view') == acc_step(N, view, input): strongest postcondition (also fixes which suffix is returned on overflow)")
+V("C08.V.acc.extend_unchecked", "acc", "CobsAccumulator::extend_unchecked", {"C08": "S", "C09": "S"},
+  fns=["postcard::accumulator::CobsAccumulator::extend_unchecked"], note="view' == view ++ input; slice range in bounds")
+V("C08.V.acc.feed", "acc", "CobsAccumulator::feed", {"C08": "S", "C09": "S"}, fns=["postcard::accumulator::CobsAccumulator::feed"],
+  note="feed is feed_ref (same strongest postcondition)")
+V("C08.L.acc.clauses_determine_step", "acc", "lemma_c08_clauses_determine_step", {"C08": "D"}, kind="L",
+  note="the three C08 clauses imply the strongest postcondition whenever the first piece fits")
+V("C08.L.acc.chunking", "acc", "lemma_chunking", {"C08": "D"}, kind="L",
+  note="chunking independence: run(view, a++b) == run(view,a) ++ run(view_after_a, b) for EVERY cut point (induction; all lengths)")
+V("C08.L.acc.run_is_isolated", "acc", "lemma_run_is_isolated", {"C08": "D"}, kind="L",
+  note="the reports equal decoding each zero-terminated segment in isolation")
+V("C08.L.acc.one_result_per_zero", "acc", "lemma_one_result_per_zero", {"C08": "D"}, kind="L",
+  note="exactly one report per zero byte")
+for c, what in [("wf", "idx <= N preserved with no precondition on the chunk"),
+                ("reset", "chunk contains a zero ==> buffer empty afterwards (initial state)"),
+                ("overfull", "over-long segment ==> OverFull no later than the call that receives its sentinel; remainder after the sentinel"),
+                ("progress", "N>=1: remainder strictly shorter, or equal with idx going N -> 0"),
+                ("safe", "no index out of bounds, no arithmetic overflow/underflow, split_at / slicing preconditions hold (body obligations)")]:
+    V("C09.V.acc.feed_ref." + c, "acc", "CobsAccumulator::feed_ref", {"C09": "D"}, fns=ACCF, note=what)
+V("C09.V.acc.new", "acc", "CobsAccumulator::new0", {"C09": "D", "C08": "S"}, fns=["postcard::accumulator::CobsAccumulator::new"],
+  note="new() is the initial state: empty view, idx <= N")
+V("C09.L.acc.resync", "acc", "lemma_resync", {"C09": "D"}, kind="L", note="after any zero byte the state equals new()'s")
+V("C09.L.acc.progress", "acc", "lemma_progress", {"C09": "D"}, kind="L", note="measure 2|rem| + [idx==N] strictly decreases per call when N >= 1")
+V("C09.L.acc.documented_loop", "acc", "documented_loop", {"C09": "D"}, kind="L",
+  note="exec driver of the documented feed loop verified with `decreases` against feed's contract: terminates for every N >= 1, any chunk")
